@@ -14,12 +14,32 @@ class Concretizer:
     def __init__(self, m):
         self.m = m
         self.assigned = {}
+        # stored terms the model equates with a window of the wire array get that window's bytes
+        from mirse.models.bytesm import vwin
+        from .wire import wire_bytes
+        fi = None
+        if any(d.name() == 'vwin' for d in m.decls()):
+            fi = m.get_interp(vwin)
+        if fi is not None and not z3.is_expr(fi):
+            for i in range(fi.num_entries()):
+                e = fi.entry(i)
+                off, ln = e.arg_value(0).as_long(), e.arg_value(1).as_long()
+                if ln > (1 << 21):
+                    continue
+                key = str(e.value())
+                b = wire_bytes(m, ln, off)
+                if key in self.assigned and self.assigned[key] != b:
+                    self.assigned[key] = None     # two windows with different bytes equated: not realisable
+                else:
+                    self.assigned[key] = b
 
     def base_bytes(self, c):
         """bytes for an uninterpreted Val constant, consistent with what the model says about it"""
         m = self.m
         key = str(m.eval(c, model_completion=True))
         if key in self.assigned:
+            if self.assigned[key] is None:
+                raise ValueError('the model equates byte strings that differ')
             return self.assigned[key]
         num = z3.is_true(m.eval(z3.And(visnum(c), vutf8(c)), model_completion=True))
         if num:
